@@ -149,11 +149,12 @@ type ATRC struct {
 // sensitive, sensitive, regular, regular, roots...), signed by them.
 func (cw *ChainWorld) TRC(a ATRC) cppki.SignedTRC {
 	far := 20000
+	// (voting certificates without ISD-AS attribute: independent of the seed-dependent ISD table)
 	voters := []ACert{
-		{Cls: "sens", Subj: 1, Iss: 1, SN: 1, ISD: 1, NB: -far, NA: far, Ver: 1},
-		{Cls: "sens", Subj: 2, Iss: 2, SN: 2, ISD: 1, NB: -far, NA: far, Ver: 1},
-		{Cls: "reg", Subj: 3, Iss: 3, SN: 3, ISD: 1, NB: -far, NA: far, Ver: 1},
-		{Cls: "reg", Subj: 4, Iss: 4, SN: 4, ISD: 1, NB: -far, NA: far, Ver: 1},
+		{Cls: "sens", Subj: 1, Iss: 1, SN: 1, ISD: 0, NB: -far, NA: far, Ver: 1},
+		{Cls: "sens", Subj: 2, Iss: 2, SN: 2, ISD: 0, NB: -far, NA: far, Ver: 1},
+		{Cls: "reg", Subj: 3, Iss: 3, SN: 3, ISD: 0, NB: -far, NA: far, Ver: 1},
+		{Cls: "reg", Subj: 4, Iss: 4, SN: 4, ISD: 0, NB: -far, NA: far, Ver: 1},
 	}
 	vw := NewWorld(cw.P, cw.Clk, voters)
 	t := cppki.TRC{Version: 1,
